@@ -178,7 +178,18 @@ fn case(tier: Tier, case_no: usize, rng: &mut Rng, rep: &mut Report) {
         let rec = Arc::new(Recorder::new(rng.next_u64(), delay));
         let rc = rec.clone();
         set_app_sink(Some(Arc::new(move |ev| rc.on_event(ev))));
-        let cfg = par_override.map(|p| json!({"parallelism": p}));
+        let mut cfg = par_override.map(|p| json!({"parallelism": p}));
+        // a quarter of the runs use the other persistence policy: responses that went through the sink are dropped from
+        // memory, so the run gets a newline-delimited JSON file sink and the responses are the file's records plus
+        // whatever is handed back (queries that fail in the input plugins never reach the sink)
+        let discard = run_no > 0 && rng.chance(0.33);
+        let sink_file = built.dir.join(format!("c06-run{run_no}.ndjson"));
+        if discard {
+            let mut c = cfg.take().unwrap_or_else(|| json!({}));
+            c["response_persistence_policy"] = json!("discard_response_from_memory");
+            c["response_output_policy"] = json!({"type": "file", "filename": sink_file.to_string_lossy(), "format": {"type": "json", "newline_delimited": true}});
+            cfg = Some(c);
+        }
         let out = catch(|| built.app.run(batch_q.clone(), cfg.as_ref()));
         set_app_sink(None);
         let trace = rec.summarise();
@@ -201,6 +212,26 @@ fn case(tier: Tier, case_no: usize, rng: &mut Rng, rep: &mut Report) {
             }
             Ok(Ok(v)) => v,
         };
+        let responses = if discard {
+            let mut all = responses;
+            let text = std::fs::read_to_string(&sink_file).unwrap_or_default();
+            let _ = std::fs::remove_file(&sink_file);
+            let mut bad_line = false;
+            for line in text.lines().filter(|l| !l.trim().is_empty()) {
+                match serde_json::from_str::<Value>(line) {
+                    Ok(v) => all.push(v),
+                    Err(_) => bad_line = true,
+                }
+            }
+            if bad_line {
+                rep.count("sink_lines_that_do_not_parse_(C19)", 1);
+            }
+            rep.count("batch_runs_with_discard_policy_and_file_sink", 1);
+            all
+        } else {
+            responses
+        };
+        let setting = if discard { format!("{setting}|discard-policy") } else { setting };
         // B1
         if responses.len() != expected_total {
             rep.violate(&format!("C06|batch|response-count|{setting}"), format!("B1 {} responses for {} expanded queries (batch of {}, parallelism {eff_par}, configured {})", responses.len(), expected_total, queries.len(), spec.parallelism), replay);
